@@ -82,17 +82,28 @@ def r3(ctx):
                 "loop is left (break) only on the Ok edge of ack.send(), the Err edge continues with the next request")
     cb = ctx.body(R, "turmoil::net::tcp::stream::TcpStream::connect::{closure#0}")
     if cb:
-        me = list(cb.calls(re.compile(r"^std::result::Result::map_err$")))
-        ok = False
-        site = cb.span
-        for bb, t in me:
-            for cid in closure_args(cb, t):
-                c = ctx.w.bodies.get(cid)
-                if c and any(s["r"]["k"] == "agg" and s["r"].get("variant") == "ConnectionRefused" for _, _, s in c.all_stmts()):
-                    ok = True
-                    site = t["s"]
-        ctx.inst(R, "connect:refusal-mapping", ok, site, "dropped one-shot mapped to ConnectionRefused" if ok else
-                 "connect no longer maps the dropped acknowledgement channel to ConnectionRefused")
+        fam = ctx.w.family(cb.id)
+        has_refused = [s for fb in fam for _, _, s in fb.all_stmts() if s["r"]["k"] == "agg" and s["r"].get("variant") == "ConnectionRefused"]
+        # the stream may be built only behind a test of the awaited acknowledgement (accepted idioms: `?` after map_err,
+        # is_err()/is_ok() test, match on the Result)
+        POLL = "call:<tokio::sync::oneshot::Receiver as std::future::Future>::poll"
+        news = [bb for bb, t in cb.calls("turmoil::net::tcp::stream::TcpStream::new")]
+        tested = False
+        for sbb, t in switch_blocks(cb):
+            o = origin(cb, t["d"])
+            if o["k"] == "discr" and o.get("adt") == "std::task::Poll":
+                continue
+            at = Slicer(ctx.w).atoms(cb, t["d"])
+            if POLL not in at:
+                continue
+            edges = [(sbb, x) for x in cb.succ(sbb)]
+            for e in edges:
+                if news and all(cb.dominated_by_edge(nb, e) for nb in news) and len(edges) > 1:
+                    tested = True
+        ok = bool(has_refused) and tested and bool(news)
+        site = has_refused[0]["s"] if has_refused else cb.span
+        ctx.inst(R, "connect:refusal-mapping", ok, site, "the stream is built only behind a test of the acknowledgement; failure is reported as ConnectionRefused" if ok else
+                 "connect can complete without the acceptor's acknowledgement, or no longer reports ConnectionRefused")
     ab = ctx.body(R, "turmoil::net::tcp::listener::TcpListener::accept::{closure#0}")
     if ab:
         sends = list(ab.calls(re.compile(r"^tokio::sync::oneshot::Sender::send$")))
